@@ -472,11 +472,16 @@ retry_after_fb:
         // in range
         if (kl > sizeof(key_slice_type)) {
             base_node* child = lv->get_next_layer();
-            if (child == nullptr) {
+            // the link was read after the optimistic check of this entry, so check again:
+            // child must be the next layer of kt, not of an entry that reused the slot.
+            check_status = iscan_check_retry(bn, v_at_fb, perm);
+            if (check_status != status::OK || child == nullptr) {
                 if (early_abort) { return status::WARN_CONCURRENT_OPERATIONS; }
-//                goto retry_fetch_lv; // NOLINT
+                if (check_status == status::OK_RETRY_AFTER_FB) {
+                    goto retry_after_fb; // NOLINT
+                }
+                goto retry_from_root; // NOLINT
             }
-            // TODO: implement check and retry
 
             if (bnv_cb(bn->get_version_ptr(), v_at_fb)) {
                 return status::WARN_ABORTED_BY_USER;
@@ -490,6 +495,11 @@ retry_after_fb:
             auto child_border_node_and_v =
                 find_border(child, child_kt.get_key_slice(), child_kt.get_key_length(), check_status);
             border_node* target_border = std::get<0>(child_border_node_and_v);
+            if (check_status != status::OK || target_border == nullptr) {
+                // the next layer got a new root or was removed after the link was read
+                if (early_abort) { return status::WARN_CONCURRENT_OPERATIONS; }
+                goto retry_from_root; // NOLINT
+            }
             // save stack context
             ctx->stack_top().bn = bn;
             ctx->stack_top().key = kt;
